@@ -141,3 +141,16 @@ package mpbgv
 //@   let m = uf_lift(val(rfp.tmpMask))
 //@   ensures implies(isnil(err), val(shareOut.EncToShareShare.Value) == old(val(ct.Value[1])) * val(skIn.Value.Q) + fresh(XSMUDGE, old(draws(XSMUDGE))) - m)
 //@   ensures implies(isnil(err), val(shareOut.ShareToEncShare.Value) == fresh(XSMUDGE, old(draws(XSMUDGE)) + 1) - old(val(crs.Value)) * val(skOut.Value.Q) + m)
+
+// ---- which parameter pairs a masked transform accepts (property C16, "output parameters that differ from the
+// ---- input's"): the message can only be preserved if input and output share the plaintext ring: the masks are
+// ---- drawn modulo the input's plaintext modulus and lifted with the output's (finding F55)
+//@ afunc NewEncToShareProtocol
+//@   trusted constructor, opaque here: some protocol object and an error, nothing assumed about either
+
+//@ afunc NewShareToEncProtocol
+//@   trusted constructor, opaque here: some protocol object and an error, nothing assumed about either
+
+//@ afunc NewMaskedTransformProtocol
+//@   property C16
+//@   ensures implies(isnil(err), paramsIn.ringT.SubRings[0].Modulus == paramsOut.ringT.SubRings[0].Modulus)
